@@ -366,6 +366,8 @@ pub struct Report<'e> {
     pub notes: Vec<String>,
     pub inconclusive: Vec<String>,
     pub extra: BTreeMap<String, Value>,
+    /// override of proptest's max_shrink_iters for the following campaigns (expensive cases)
+    pub shrink_iters: Option<u32>,
 }
 
 thread_local! {
@@ -448,6 +450,7 @@ impl<'e> Report<'e> {
             notes: vec![],
             inconclusive: vec![],
             extra: BTreeMap::new(),
+            shrink_iters: None,
         }
     }
     pub fn assume(&mut self, s: &str) {
@@ -501,6 +504,7 @@ impl<'e> Report<'e> {
         let extra = cases % threads as u32;
         let stop = AtomicBool::new(false);
         let env = self.env;
+        let shrink_iters = self.shrink_iters;
         let results: Mutex<Vec<(usize, CampaignStats, Option<(Vec<u16>, Failure)>)>> =
             Mutex::new(vec![]);
         let campaign_hash = hash_of(&name);
@@ -518,7 +522,7 @@ impl<'e> Report<'e> {
                             .wrapping_mul(0x9E37_79B9_7F4A_7C15)
                             .wrapping_add(campaign_hash)
                             .wrapping_add((shard as u64) << 32 | 0x5bd1);
-                        let out = run_shard(env, n, len, seed, stop, f);
+                        let out = run_shard(env, n, len, seed, stop, f, shrink_iters);
                         results.lock().unwrap().push((shard, out.0, out.1));
                     })
                     .unwrap();
@@ -555,7 +559,7 @@ impl<'e> Report<'e> {
     pub fn enumerate<I, T, F>(&mut self, name: &str, exhaustive: bool, items: I, f: F)
     where
         I: Iterator<Item = T> + Send,
-        T: Send,
+        T: Send + std::fmt::Debug,
         F: Fn(&mut Case, &T) -> CaseResult + Sync,
     {
         if self.env.replay.is_some() {
@@ -589,8 +593,8 @@ impl<'e> Report<'e> {
                             // take a batch
                             let batch: Vec<T> = {
                                 let mut it = items.lock().unwrap();
-                                let mut b = Vec::with_capacity(256);
-                                for _ in 0..256 {
+                                let mut b = Vec::with_capacity(2048);
+                                for _ in 0..2048 {
                                     match it.next() {
                                         Some(x) => b.push(x),
                                         None => break,
@@ -602,6 +606,9 @@ impl<'e> Report<'e> {
                                 break;
                             }
                             for item in batch.iter() {
+                                if let Ok(p) = std::env::var("VH_INFLIGHT") {
+                                    let _ = std::fs::write(&p, format!("{{\"in_flight_item\": {:?}}}", format!("{item:?}")));
+                                }
                                 let want = st.samples.len() < 4 && (st.cases % 97 == 0);
                                 let mut case = Case::new(Choices::new(vec![]), &env.excluded, want);
                                 let r = run_case(env, f_adapter(f, item), &mut case, &mut st);
@@ -762,7 +769,7 @@ impl<'e> Report<'e> {
         if self.env.replay.is_none() {
             let dir = format!("{VERIF}/evidence");
             let _ = std::fs::create_dir_all(&dir);
-            let path = format!("{dir}/{}.json", self.env.property);
+            let path = std::env::var("VH_EVIDENCE_PATH").unwrap_or_else(|_| format!("{dir}/{}.json", self.env.property));
             std::fs::write(&path, serde_json::to_string_pretty(&ev).unwrap())
                 .expect("write evidence");
         }
@@ -867,6 +874,7 @@ fn run_shard<F>(
     seed: u64,
     stop: &AtomicBool,
     f: &F,
+    shrink_iters: Option<u32>,
 ) -> (CampaignStats, Option<(Vec<u16>, Failure)>)
 where
     F: Fn(&mut Case) -> CaseResult + Sync,
@@ -878,7 +886,7 @@ where
         cases,
         failure_persistence: None,
         rng_seed: RngSeed::Fixed(seed),
-        max_shrink_iters: if env.tier == Tier::Quick { 3000 } else { 8000 },
+        max_shrink_iters: shrink_iters.unwrap_or(if env.tier == Tier::Quick { 3000 } else { 8000 }),
         max_global_rejects: 1_000_000,
         verbose: 0,
         max_shrink_time: 0,
@@ -898,6 +906,9 @@ where
             let s = stats.borrow();
             s.samples.len() < 4 && s.cases % 53 == 7
         };
+        if let Ok(p) = std::env::var("VH_INFLIGHT") {
+            let _ = std::fs::write(&p, format!("{{\"in_flight_choices\": {:?}}}", v));
+        }
         let mut case = Case::new(Choices::new(v), &env.excluded, want);
         let mut scratch = CampaignStats::default();
         let r = if counting {
